@@ -708,6 +708,29 @@ func tamperLegacy(b []byte) []byte {
 	return out
 }
 
+// blankSigs: every signature entry keeps its key id but announces no signature value (""); with twice, each entry is
+// listed two times
+func blankSigs(b []byte, twice bool) []byte {
+	var m map[string]any
+	if err := json.Unmarshal(b, &m); err != nil {
+		panic(err)
+	}
+	sigs, _ := m["signatures"].([]any)
+	var out2 []any
+	for _, s := range sigs {
+		if e, ok := s.(map[string]any); ok {
+			e["sig"] = ""
+		}
+		out2 = append(out2, s)
+		if twice {
+			out2 = append(out2, s)
+		}
+	}
+	m["signatures"] = out2
+	out, _ := json.MarshalIndent(m, "", "  ")
+	return out
+}
+
 func tamperDSSE(b []byte, step string) []byte {
 	var m map[string]any
 	if err := json.Unmarshal(b, &m); err != nil {
@@ -837,6 +860,16 @@ func makers() []maker {
 			}
 			it := w.keyItem(st, sc, i, "key-tampered")
 			return &item{name: it.name, content: tamperLegacy(it.content), label: "key-tampered"}
+		}},
+		// a link named after an authorised functionary whose signature entries carry that key id and an EMPTY signature
+		// value (a placeholder is not a signature): never counted
+		{"key-blank-signature-value", func(w *world, sc *scenario, st stepShape, r *lib.Rng) *item {
+			i := pickKey(st, sc, r, true, w)
+			if i < 0 {
+				i = 0
+			}
+			it := w.keyItem(st, sc, i, "key-blank-signature-value")
+			return &item{name: it.name, content: blankSigs(it.content, r.Bool()), label: "key-blank-signature-value"}
 		}},
 		{"unsigned", func(w *world, sc *scenario, st stepShape, r *lib.Rng) *item {
 			i := r.Intn(len(w.pool))
